@@ -16,6 +16,7 @@ import (
 	"github.com/formancehq/ledger/internal/engine/command"
 	"github.com/formancehq/ledger/internal/machine"
 	"github.com/formancehq/ledger/internal/opentelemetry/metrics"
+	. "github.com/formancehq/ledger/internal/verif/apiback"
 	vc "github.com/formancehq/ledger/internal/verif/vcommon"
 	"github.com/formancehq/stack/libs/go-libs/auth"
 	"github.com/formancehq/stack/libs/go-libs/health"
